@@ -93,6 +93,29 @@ class Ctx:
         return s.require(False, name, shape, site, extra, replay)
 
 
+def selftest_cached(seed):
+    import hashlib, glob, json
+    h = hashlib.sha256()
+    for c in ("tx3-tir", "tx3-cardano", "tx3-resolver", "tx3-lang"):
+        h.update(mirdump.src_hash(c, "on").encode())
+    V = os.path.dirname(os.path.dirname(os.path.abspath(__file__)))
+    for f in sorted(glob.glob(os.path.join(V, "mirsym", "*.py")) + glob.glob(os.path.join(V, "lib", "selftest.py")) + glob.glob(os.path.join(V, "replay", "src", "*.rs")) + glob.glob(os.path.join(V, "corpus", "*.tx3"))):
+        h.update(open(f, "rb").read())
+    key = h.hexdigest()[:16]
+    path = os.path.join(V, ".cache", "selftest.%s.json" % key)
+    if os.path.exists(path):
+        r = json.load(open(path))
+        r["cached"] = True
+        return r
+    import selftest
+    try:
+        r = selftest.run_all(seed)
+    except Exception as e:
+        r = dict(vectors=0, disagreements=[("selftest crashed", "%s: %s" % (type(e).__name__, str(e)[:300]))], wall_s=0)
+    json.dump(r, open(path, "w"), default=str)
+    return r
+
+
 def run_one(prop, hname, tier, seed):
     """run one harness in this process -> picklable result"""
     mod = importlib.import_module("harness.%s" % prop.lower())
@@ -190,6 +213,12 @@ def run(prop, tier, seed, cov, findings, inconclusive, assumptions, only=None):
             findings.append(ff)
             if ff.replayed:
                 cov["traces_validated_against_impl"] += 1
+    # translator validation: native vs. engine M in concrete mode (cached per source state)
+    st = selftest_cached(seed)
+    cov["selftest"] = dict(vectors=st["vectors"], disagreements=len(st["disagreements"]), cached=st.get("cached", False))
+    cov["traces_validated_against_impl"] += st["vectors"] - len(st["disagreements"])
+    if st["disagreements"]:
+        inconclusive.append("engine M disagrees with the native code on %d selftest vector(s), e.g. %s" % (len(st["disagreements"]), str(st["disagreements"][0])[:300]))
     if used_models:
         cov["trusted_base"] += ["mirsym MIR interpreter (z3 %s)" % z3.get_version_string(), "std models: " + ", ".join(sorted(used_models))]
         assumptions.append("engine M interprets rustc's MIR of the repository (dumped from the current working tree, overflow-checks=on unless stated); standard-library calls are models listed under trusted_base; hash containers are bounded association lists with symbolic presence")
